@@ -529,7 +529,7 @@ class Parser:
         return value
 
     def check_fstring_conversion(self, name: TokenInfo) -> int:
-        s = name.string
+        s = unicodedata.normalize("NFKC", name.string)  # the conversion is an identifier, compared like any other
         if len(s) > 1 or s not in ("s", "r", "a"):
             self.raise_syntax_error_known_location(
                 f"f-string: invalid conversion character '{s}': expected 's', 'r', or 'a'",
